@@ -356,12 +356,34 @@ class Sym:
 
 
 def find_fn(tree, cls, name):
+    """the definition Python binds to cls.name: the LAST `def` of that name in the class body; a decorator or a class-level
+    assignment to the name would replace the function by something this translator does not see"""
+    found = None
     for n in tree.body:
         if isinstance(n, ast.ClassDef) and n.name == cls:
             for f in n.body:
                 if isinstance(f, ast.FunctionDef) and f.name == name:
-                    return f
-    raise Unsupported(f"{cls}.{name} not found")
+                    found = f
+                elif isinstance(f, (ast.Assign, ast.AnnAssign, ast.AugAssign)):
+                    tg = f.targets if isinstance(f, ast.Assign) else [f.target]
+                    if any(isinstance(t, ast.Name) and t.id == name for t in tg):
+                        raise U(f, f"{cls}.{name} is re-bound at class level")
+    if found is None:
+        raise Unsupported(f"{cls}.{name} not found")
+    if found.decorator_list:
+        raise U(found, f"{cls}.{name} is decorated ({', '.join(ast.unparse(d) for d in found.decorator_list)})")
+    return found
+
+
+def no_override(tree, cls, names):
+    """a subclass that must inherit the translated methods unchanged"""
+    for n in tree.body:
+        if isinstance(n, ast.ClassDef) and n.name == cls:
+            for f in ast.walk(n):
+                if isinstance(f, (ast.FunctionDef, ast.AsyncFunctionDef)) and f.name in names:
+                    raise U(f, f"{cls} overrides {f.name}")
+                if isinstance(f, ast.Assign) and any(isinstance(t, ast.Name) and t.id in names for t in f.targets):
+                    raise U(f, f"{cls} re-binds one of {names}")
 
 
 def strip_doc(body):
